@@ -24,7 +24,7 @@ SHAPES = [[[4, 3], [5]], [[3, 4, 2]], [[7, 2], [3, 3], [4]], [[2, 3, 2, 2], [6]]
           # singleton dimensions (Linear(1, n).weight, 1x1 convolution kernels, broadcast scales): trailing, leading, in the middle
           # equal shapes whose shards on one rank have equal lengths at different offsets (rank 1 of 3 holds the second half of one and the
           # first half of the next)
-          [[6], [4, 3], [4, 3], [6]], [[4], [2, 3, 2], [2, 3, 2], [4]], [[3], [6, 2], [6, 2], [3], [2]],
+          [[12], [4, 3], [4, 3], [12]], [[6], [4, 3], [4, 3], [6]], [[4], [2, 3, 2], [2, 3, 2], [4]], [[3], [6, 2], [6, 2], [3], [2]],
           [[6, 1], [4]], [[4, 2, 1, 1], [3]], [[5, 1, 1]], [[1, 6], [3, 1], [2, 2]], [[3, 1, 4]], [[1], [7, 1]], [[], [5, 1], [3]]]
 
 
@@ -63,6 +63,17 @@ def make_task(rng, kind):
             while rows == sorted(rows):
                 rng.shuffle(rows)
             t["mesh_rows"] = rows
+    return t
+
+
+def make_dup_fqn(rng):
+    """nested FSDP units: two equal-shaped "weight"s whose shards on one rank have the same length at different offsets"""
+    for _ in range(200):
+        t = make_task(rng, "fsdp")
+        if t["shapes"] == [[12], [4, 3], [4, 3], [12]]:
+            # 3 ranks of 16 elements: rank 1 holds weight[4:12] and the next weight[0:8] - same length, different slabs
+            t.update(S=3, align=1, dup_fqn=True)
+            return t
     return t
 
 
@@ -245,7 +256,7 @@ def run(ctx):
         if not r.ok:
             raise tlc.TLCMachineryError(f"ShampooDist column model violates {r.violated}")
     tasks = attach_spec([make_task(rng, "fsdp") for _ in range(60 if quick else 600)] + [make_task(rng, "hsdp") for _ in range(40 if quick else 300)]
-                        + [make_singleton_hsdp(rng) for _ in range(8 if quick else 60)])
+                        + [make_singleton_hsdp(rng) for _ in range(8 if quick else 60)] + [make_dup_fqn(rng) for _ in range(5 if quick else 30)])
     tasks = [t for t in tasks if usable(t)]
     results = sp.sim_map(dc.run_shard_task, tasks, lambda r: bool(r.get("crash") or r.get("verdict") or r.get("param_mismatch") or any((r.get("errors") or {}).values())))
     ctx.put("worlds_not_reproduced_on_rerun", sum(1 for r in results if r.get("_flaky_first_run")))
